@@ -11,6 +11,7 @@ import r_freeze
 import r_lock
 import r_partials
 import r_cmp
+import r_table
 
 TRUST_COMMON = [
     "rustc nightly: MIR (mir-opt-level=0), type and trait resolution as dumped by driver/lrfacts",
@@ -92,6 +93,12 @@ def c06(rep, tier):
     p = P("all")
     r_pair.run_excl_conditional(p, rep)
     r_pair.run_excl_case(p, rep)
+    r_table.run_operator_table(p, rep)
+    r_table.run_condition_tree(p, rep)
+    r_table.run_construct(p, rep)
+    r_table.run_existence(p, rep)
+    r_table.run_truth_table(p, rep)
+    r_cmp.run_eqonly(p, rep)
     rep.analysed["config:all"] = {"bodies": len(p.fns)}
 
 
@@ -240,11 +247,14 @@ PROPS = {
         "run": c06,
         "level": "other",
         "design_ref": "DESIGN.md §3 R-EXCL, R-CONSTRUCT, R-TABLE; §4 C06",
-        "technique": "CFG mutual-unreachability of branch renders and edge polarity of the condition switch",
+        "technique": "CFG mutual-unreachability of branch renders, edge polarity of condition switches, decision tables (operator -> comparison method, truthiness per State) read off MIR by variant-directed path following",
         "explanation": (
             "Decided from MIR: Conditional renders if_true only on the true edge and if_false only on the false edge of one switch on compare(), "
             "compare() is evaluate()==mode (unless = negated if); Case renders the first arm whose test is true and returns, else only after the "
-            "arm loop is exhausted. NOT decided: the value of each comparison (C11)."
+            "arm loop is exhausted; each comparison operator is decided by exactly its ValueViewCmp method on (lh, rh) and the operator spellings map to "
+            "the right variants; and/or short-circuit on the correct edge; Disjunction is built only over conjunction chains (x or y and z = x or (y and z)); a "
+            "bare value uses the non-failing lookup and State::Truthy; the truthiness table (numbers, dates, strings, arrays, objects true; nil false) is "
+            "read from every query_state; case/when matches by == only. NOT decided: the value of each comparison (C11)."
         ),
         "trusted": TRUST_COMMON,
         "note": "exactly-one-branch structure only",
